@@ -291,6 +291,11 @@ func (st *state) checkDec(long bool, stream []byte, src int) {
 		st.unspec++ // stream ends inside the number: statement silent (C08/C09)
 	case d.Overflow || d.NonMinimal:
 		st.unspec++ // acceptance and value not fixed by the statement
+		// ... but a decoder that does accept the bytes still "reports exactly that many bytes consumed": the count
+		// it returns with a nil error is the number of bytes it took (framing is built on it)
+		if err == nil && n != int64(consumed) {
+			st.failf(pre+"n-differs-from-bytes-consumed/accepted-non-minimal-encoding", "stream %x: ReadFrom accepted a non-minimal encoding, reported n=%d and consumed %d bytes of the source", stream, n, consumed)
+		}
 	default:
 		if err != nil {
 			st.failf(pre+"error-on-canonical-encoding", "stream %x starts with the canonical %d-byte encoding of %#x but ReadFrom returned %v", stream, d.N, d.Value, err)
